@@ -4,6 +4,8 @@ import (
 	"bytes"
 	"context"
 	"fmt"
+	"google.golang.org/grpc"
+	"google.golang.org/grpc/metadata"
 	"google.golang.org/protobuf/types/known/anypb"
 	"google.golang.org/protobuf/types/known/wrapperspb"
 	"io"
@@ -96,6 +98,10 @@ func runC14(o *hx.Out, r *hx.Rand, thorough bool) {
 			o.Violate("fallback derives OK for a non-2xx status or non-OK for 2xx", map[string]interface{}{"http": s}, got, nil)
 		}
 	}
+	// (a handler with a custom renderer created FIRST through the exported helper: the default renderer of
+	// handlers created afterwards without options must not be affected)
+	_ = httpgrpc.HandleMethod(&hx.Svc{}, hx.SvcName, &hx.Desc(hx.SvcName).Methods[0], nil,
+		httpgrpc.ErrorRenderer(func(context.Context, *status.Status, http.ResponseWriter) {}))
 	// 2. the real server with the default renderer, request context live or ended
 	var ret error
 	svc := &hx.Svc{Unary: func(ctx context.Context, req *hx.Msg) (*hx.Msg, error) { return nil, ret }}
@@ -182,9 +188,18 @@ func runC14(o *hx.Out, r *hx.Rand, thorough bool) {
 		ts := httptest.NewServer(srv)
 		u, _ := url.Parse(ts.URL)
 		ch := &httpgrpc.Channel{Transport: &http.Transport{}, BaseURL: u}
-		for _, c := range e2e {
+		for i, c := range e2e {
 			ret = codeErr{c}
-			err := ch.Invoke(context.Background(), "/verif.Svc/U", &hx.Msg{}, &hx.Msg{})
+			// with and without the call options that ask for the reply's metadata
+			var copts []grpc.CallOption
+			var hmd, tmd metadata.MD
+			switch i % 3 {
+			case 1:
+				copts = []grpc.CallOption{grpc.Header(&hmd), grpc.Trailer(&tmd)}
+			case 2:
+				copts = []grpc.CallOption{grpc.Trailer(&tmd)}
+			}
+			err := ch.Invoke(context.Background(), "/verif.Svc/U", &hx.Msg{}, &hx.Msg{}, copts...)
 			got := codeOfErr(err)
 			o.Case("end_to_end_"+rd.name, fmt.Sprintf("EndToEnd %d %d %d", c, rd.http, got),
 				map[string]interface{}{"code": c, "renderer": rd.name, "client_code": got})
